@@ -461,7 +461,7 @@ func matchSize(_ Context, doc bsonkit.Doc, name, path string, v interface{}) err
 
 	// get value (do not unwind: $size compares against the array at the path,
 	// not its elements)
-	value, multi := bsonkit.All(doc, path, false, false)
+	value, multi := bsonkit.All(doc, path, true, false)
 
 	// check each per-subdocument value when the path crossed a subdoc array
 	if multi {
